@@ -464,6 +464,66 @@ func TestC06(t *testing.T) {
 		c06Check(t, c, s, fmt.Sprintf("r%d", s.Intn(5)), d, []gen.Level{rapid.SampledFrom(levels).Draw(t, "level")})
 	})
 	// (4) the default time set: certificates valid around the real current time are accepted, a leaf expired a minute ago is not.
+	// Endpoints whose answer changes between two requests of ONE verification (a PCS rolling its documents over, a
+	// verifier that asks twice). The first round of answers has one artefact past its end at that artefact's own time
+	// and the others current; the second round has THAT one current and another one past its end. Whichever round a
+	// verifier uses for which artefact, something it uses is out of date: the quote is rejected.
+	gen.Direct(t, "answers-that-change-between-two-requests", func(t *testing.T) {
+		arts := []string{"tcbinfo", "qeidentity", "pckcrl", "rootcrl"}
+		i := 0
+		for _, first := range arts {
+			for _, second := range arts {
+				if first == second {
+					continue
+				}
+				i++
+				if !gen.ShardOwns(i) {
+					continue
+				}
+				build := func(stale string) *gen.World {
+					w := gen.NewWorld(gen.NewPKI(gen.PKISpec{Seed: "pki-A"}), gen.NewStream(gen.Seed()+5, "c06chg"))
+					w.HonestCollateral()
+					w.SignQuote()
+					past := func(at time.Time) time.Time { return at.Add(-time.Hour) }
+					switch stale {
+					case "tcbinfo":
+						w.TcbInfo.NextUpdate = past(w.Times.TcbInfo)
+					case "qeidentity":
+						w.QeID.NextUpdate = past(w.Times.QeIdentity)
+					case "pckcrl":
+						w.PckCrl = gen.CRLSpec{ThisUpdate: gen.Wide.NotBefore, NextUpdate: past(w.Times.PckCrl)}
+					case "rootcrl":
+						w.RootCrl = gen.CRLSpec{ThisUpdate: gen.Wide.NotBefore, NextUpdate: past(w.Times.RootCaCrl)}
+					}
+					w.BuildCollateral()
+					return w
+				}
+				w1, w2 := build(first), build(second)
+				// control: each round on its own is rejected
+				for k, w := range []*gen.World{w1, w2} {
+					o := w.Options(gen.LvlCRL, w.NewGetter(), nil)
+					if v := gen.Call(func() error { return verify.RawTdxQuote(w.Raw, o) }); v.Accepted() {
+						gen.Fail(t, gen.Violation{Key: "accepts-out-of-date:" + []string{first, second}[k] + "_expired", Oracle: "accepted => every in-play artifact is in date at its own time", Detail: "control round " + fmt.Sprint(k+1), Replay: w.CaseFile(gen.LvlCRL, nil, nil, nil, "reject")})
+						return
+					}
+				}
+				g := w2.NewGetter()
+				for u, r := range w1.Resp {
+					g.Script[u] = []gen.Response{r}
+				}
+				o := w1.Options(gen.LvlCRL, nil, nil)
+				o.Getter = g
+				gen.Eval()
+				v := gen.Call(func() error { return verify.RawTdxQuote(w1.Raw, o) })
+				gen.NonTrivial("changing", first, second)
+				gen.Class("changing-answers:first-" + first)
+				if v.Accepted() {
+					gen.Fail(t, gen.Violation{Key: "accepts-out-of-date:answers-changed-between-requests", Oracle: "accepted => every in-play artifact is in date at its own time", Detail: fmt.Sprintf("every endpoint first serves the round in which %s is past its end, afterwards the round in which %s is past its end: accepted (requests: %v)", first, second, g.Requests()), Replay: w1.CaseFile(gen.LvlCRL, nil, nil, nil, "reject")})
+					return
+				}
+			}
+		}
+	})
 	gen.Direct(t, "default-time-set", func(t *testing.T) {
 		now := time.Now()
 		for _, expired := range []bool{false, true} {
